@@ -235,7 +235,7 @@ def specExpire (env : Env) (ks : KS) : List Bytes → Reply × KS
   | none => (errInt, ks)
   | some s =>
     let opt := lower (optl.headD [])
-    if !(opt == [] || opt == ofStr "nx" || opt == ofStr "xx" || opt == ofStr "gt" || opt == ofStr "lt") then
+    if !(optl.isEmpty || opt == ofStr "nx" || opt == ofStr "xx" || opt == ofStr "gt" || opt == ofStr "lt") then
       (.err (ofStr "ERR Unsupported option"), ks) else
     if !inI64 (env.now + s) then (.err (ofStr "ERR invalid expire time in 'expire' command"), ks) else
     match ks.at env.now k with
